@@ -45,18 +45,20 @@ KEY_LUCKY = 'forced-downenc-lucky-tiny-probe'
 
 class Case:
     __slots__ = ('seed', 'q', 'a', 'mask', 'limit', 'edns', 'rawok', 'qtype', 'downenc', 'lazy', 'rawmode', 'autofrag',
-                 'fragsize', 'maxlen', 'npkts', 'block')
+                 'fragsize', 'maxlen', 'npkts', 'block', 'occupied')
 
     def __init__(self, seed, q, a, mask, limit, edns, rawok=0, qtype=0, downenc=32, lazy=1, rawmode=0, autofrag=1, fragsize=0,
-                 maxlen=255, npkts=3, block='auto'):
+                 maxlen=255, npkts=3, block='auto', occupied=0):
+        self.occupied = occupied
         self.seed, self.q, self.a, self.mask, self.limit, self.edns = seed, q, a, mask, limit, edns
         self.rawok, self.qtype, self.downenc, self.lazy, self.rawmode = rawok, qtype, downenc, lazy, rawmode
         self.autofrag, self.fragsize, self.maxlen, self.npkts, self.block = autofrag, fragsize, maxlen, npkts, block
 
     def line(self):
-        return 'G %d %d %d %d %d %d %d %d %d %d %d 0 %d %d %d %d %d %d %d %d' % (
+        return 'G %d %d %d %d %d %d %d %d %d %d %d 0 %d %d %d %d %d %d %d %d%s' % (
             self.seed, self.q[0], self.q[1], self.q[2], self.a[0], self.a[1], self.a[2], self.mask, self.limit, self.edns,
-            self.rawok, self.qtype, self.downenc, self.lazy, self.rawmode, self.autofrag, self.fragsize, self.maxlen, self.npkts)
+            self.rawok, self.qtype, self.downenc, self.lazy, self.rawmode, self.autofrag, self.fragsize, self.maxlen, self.npkts,
+            '/%d' % self.occupied if self.occupied else '')
 
     def model_key(self):
         """the part of the case the model's prediction depends on"""
@@ -70,9 +72,18 @@ class Case:
 
 def parse_case(line):
     v = line.split()
+    occ = 0
+    if '/' in v[-1]:
+        v[-1], o = v[-1].split('/')
+        occ = int(o)
     n = [int(x) for x in v[1:]]
-    return Case(n[0], tuple(n[1:4]), tuple(n[4:7]), n[7], n[8], n[9], n[10], n[12], n[13], n[14], n[15], n[16], n[17], n[18],
-                n[19] if len(n) > 19 else 0, 'replay')
+    return _with_occupied(occ, Case(n[0], tuple(n[1:4]), tuple(n[4:7]), n[7], n[8], n[9], n[10], n[12], n[13], n[14], n[15], n[16], n[17], n[18],
+                n[19] if len(n) > 19 else 0, 'replay'))
+
+
+def _with_occupied(occ, c):
+    c.occupied = occ
+    return c
 
 
 # ---- the relay, re-stated independently (h_handshake.c xform) for the oracle's predicates -------
@@ -318,6 +329,11 @@ def gen_cases(seed, tier):
     for x in forced_members[:7]:
         for rawok in (0, 1):
             add('raw-mode', q=x, a=x, mask=rng.choice(MASKS), limit=rng.choice(lims), edns=rng.randrange(2), rawmode=1, rawok=rawok)
+    # the client is not the first one: user ids 9, 10, 15 (written as a hex digit in data queries) behind relays that rewrite letter case
+    for occ in (9, 10, 12, 15):
+        for qc in (0, 1, 2, 3):
+            add('high-userid', q=(qc, 0, 0), a=rng.choice([ident, (1, 0, 0), (2, 0, 0)]), mask=rng.choice([0x7f, 0x7c, 0x60]), limit=rng.choice(lims),
+                edns=rng.randrange(2), occupied=occ)
     # other command-line settings: legacy (non-lazy) mode, shorter query names, given fragment size
     for x in forced_members[:7]:
         add('options', q=x, a=x, mask=rng.choice(MASKS), limit=rng.choice(lims), edns=rng.randrange(2), lazy=0)
